@@ -881,6 +881,26 @@ pub fn generate(sink: &mut Sink, seed: u64, thorough: bool) {
         run_one(sink, &prog, "residue_sweep");
         r += step as usize;
     }
+    // 2b. the XML size limit (thorough tier: an 11 MiB string): finalize must refuse what the reader would
+    //     refuse (10 MiB), and a string just below the limit must round-trip
+    if thorough {
+        for n in [11 * 1024 * 1024usize, 9 * 1024 * 1024] {
+            let prog = Program { guid: "xml-limit".into(), stmts: vec![Stmt::Cm(Some("m".repeat(n))), Stmt::Fin] };
+            let dev = SimDev::new(vec![]);
+            let run = execute(&prog, &dev);
+            let line = prog.case_line(&lv);
+            sink.oracle_evals += 1;
+            let expect_ok = n < 10 * 1024 * 1024;
+            let got_ok = run.results.last().map(|r| r == "ok").unwrap_or(false);
+            if got_ok != expect_ok {
+                sink.fail("C10", "writer/xml-size-limit", &format!("xml-limit {n}"), &format!("finalize with a {n}-byte string returned ok={got_ok}; the reader accepts XML up to 10 MiB"));
+            } else if got_ok && e57::E57Reader::new(std::io::Cursor::new(run.file.clone())).is_err() {
+                sink.fail("C10", "writer/xml-size-limit", &format!("xml-limit {n}"), "finalize succeeded but the file does not open");
+            }
+            sink.stat("xml_limit_case");
+            sink.case(line, run_line(&run), true);
+        }
+    }
     // 3. packet boundary: clouds with exactly cap-1, cap, cap+1, 2cap+1 points for a few prototypes
     let protos: Vec<Vec<Rec>> = vec![
         vec![std("cartesianX", DT::F64(None, None)), std("cartesianY", DT::F64(None, None)), std("cartesianZ", DT::F64(None, None))],
